@@ -45,6 +45,11 @@ def bad_lines(o, names):
                 ('float', '%s = 1.5' % n), ('word', '%s = zzz_not_a_value' % n), ('trailing-garbage', '%s = 3x' % n)]
         boolref = next(x for x in names if names[x] == 'bool')
         out.append(('wrong-type-reference', '%s = %s' % (n, boolref)))
+        # a negated reference whose value is in range but whose negation is not (output_tab_size defaults to 8)
+        if n not in ('output_tab_size', 'input_tab_size') and (o.type == 'unsigned' or (lo is not None and lo > -8)):
+            out.append(('negated-reference-out-of-range', '%s = -output_tab_size' % n))
+        if hi is not None and hi < 8 and o.type == 'signed':
+            out.append(('reference-out-of-range', '%s = output_tab_size' % n))
     elif o.type == 'bool':
         out += [('number', '%s = 2' % n), ('word', '%s = maybe' % n), ('iarf-word', '%s = force' % n)]
         numref = next(x for x in names if names[x] == 'unsigned')
